@@ -75,7 +75,7 @@ pub struct SyncSc {
 
 pub const REMOTE_LINK: &str = "/data/current";
 
-pub const FAULT_KINDS: [OpKind; 6] = [OpKind::Write, OpKind::Rename, OpKind::Open, OpKind::PipeWrite, OpKind::Spawn, OpKind::Readdir];
+pub const FAULT_KINDS: [OpKind; 7] = [OpKind::Write, OpKind::Rename, OpKind::Open, OpKind::PipeWrite, OpKind::Spawn, OpKind::Readdir, OpKind::Unlink];
 
 pub const NAME_PARTS: &[&str] = &[
     "a", "b.txt", "sp ace", "q'uo", "d\"q", "back\\sl", "$dol", "st*r", "qu?", "[br]", "tab\there", "-dash", ".hid", "ünï", "e", "x.tmp", "target",
